@@ -44,10 +44,68 @@ def _flatten_values(m):
     return out
 
 
+def _c17_partition(cols, m, case, check):
+    out = []
+    vals = _flatten_values(m)
+    lost = [c for c in cols if c not in vals]
+    dup = sorted({v for v in vals if vals.count(v) > 1})
+    invented = [v for v in vals if v not in cols]
+    if lost:
+        out.append(vio("C17", "column-lost", f"columns {cols}: {lost} missing from map {m}", case, check, "session"))
+    if dup:
+        out.append(vio("C17", "column-used-twice", f"columns {cols}: {dup} assigned to several keys in {m}", case, check, "session"))
+    if invented:
+        out.append(vio("C17", "column-invented", f"columns {cols}: {invented} not a source column in {m}", case, check, "session"))
+    return out
+
+
+def c17_builder_case(case):
+    """the inference reached through the builder objects: builder 1 infers a map for a header, the
+    caller edits that map in place (as the documentation of prepare() suggests), then a second
+    builder infers the map for the same header: it must again use every column exactly once"""
+    import pandas as pd
+    from funtracks.import_export import CSVTracksBuilder
+    _k, cols, edit = case
+    cols = list(cols)
+    df = pd.DataFrame({c: [0, 1] for c in cols})
+    b1 = CSVTracksBuilder()
+    try:
+        b1.prepare(df)
+    except ValueError:
+        return []  # a required key cannot be inferred from this header
+    except Exception as e:  # noqa: BLE001
+        return [vio("C17", "raises", f"{type(e).__name__}: {e}", case, "builder.prepare", "")]
+    m1 = b1.node_name_map
+    out = _c17_partition(cols, m1, case, "builder.prepare")
+    if out:
+        return out
+    keys = list(m1)
+    if edit == "delete-all":
+        for k in keys:
+            del m1[k]
+    elif edit == "first-column-everywhere":
+        for k in keys:
+            m1[k] = cols[0]
+    elif edit == "clear-lists":
+        for k in keys:
+            if isinstance(m1[k], list):
+                m1[k].clear()
+            else:
+                m1[k] = None
+    b2 = CSVTracksBuilder()
+    try:
+        b2.prepare(pd.DataFrame({c: [0, 1] for c in cols}))
+    except Exception as e:  # noqa: BLE001
+        return [vio("C17", "raises", f"second builder, same header, after the caller edited the first map ({edit}): {type(e).__name__}: {e}", case, "builder.prepare-second", edit)]
+    return _c17_partition(cols, b2.node_name_map, case, "builder.prepare-second")
+
+
 def c17_case(case):
     """case = (kind, cols, required, ndim) -> list of violations"""
     from funtracks.import_export._name_mapping import infer_edge_name_map, infer_node_name_map
     from funtracks.import_export._utils import get_default_key_to_feature_mapping
+    if case[0] == "builder":
+        return c17_builder_case(case)
     kind, cols, required, ndim = case
     cols = list(cols)
     feats = get_default_key_to_feature_mapping(ndim, display_name=False)
@@ -110,6 +168,16 @@ def c17_cases(tier):
         for n in range(0, (4 if q else 6)):
             for cols in itertools.permutations(EDGE_VOCAB, n):
                 yield ("edge", cols, (), ndim)
+    # through the builder objects, two builders in a row on the same header with the first map
+    # edited in place by the caller in between
+    base = ["time", "id", "parent_id"]
+    others = [c for c in (NODE_VOCAB if not q else NODE_VOCAB_THIN) if c not in base]
+    for n in range(0, 3):
+        for extra in itertools.permutations(others, n):
+            for edit in ("delete-all", "first-column-everywhere", "clear-lists"):
+                yield ("builder", tuple(base) + extra, edit)
+                if n:
+                    yield ("builder", extra + tuple(base), edit)
     # wide headers: a column for every node feature (so that every slot of the map gets filled),
     # each feature spelled as its key / its display or value names / those names in upper case,
     # with the required keys and seg_id, 0-2 further columns, in three column orders
